@@ -118,7 +118,8 @@ impl Path {
                         first_point,
                     );
                 }
-                self.first_point = None;
+                // like when filling, the current point returns to the start of the subpath
+                self.current_point = self.first_point;
             }
 
             // to determine containment we just need to count crossing of ray from (x, y) going to infinity
@@ -126,45 +127,31 @@ impl Path {
                 let (x1, y1) = (p1.x, p1.y);
                 let (x2, y2) = (p2.x, p2.y);
 
-                let dir = if y1 < y2 { -1 } else { 1 };
-
-                // entirely to the right
-                if x1 > self.x && x2 > self.x {
-                    return
-                }
-
-                // entirely above
-                if y1 > self.y && y2 > self.y {
-                    return
-                }
-
-                // entirely below
-                if y1 < self.y && y2 < self.y {
-                    return
-                }
-
-                // entirely to the left
-                if x1 < self.x && x2 < self.x {
-                    if y1 > self.y && y2 < self.y {
-                        self.count += 1;
-                        return;
-                    }
-                    if y2 > self.y && y1 < self.y {
-                        self.count -= 1;
-                        return;
-                    }
-                }
-
                 let dx = x2 - x1;
                 let dy = y2 - y1;
 
                 // cross product/perp dot product lets us know which side of the line we're on
                 let cross = dx * (self.y - y1) - dy * (self.x - x1);
 
-                if cross == 0. {
+                // the point is on the edge if it is on the line through it and between its ends
+                if cross == 0.
+                    && self.x >= x1.min(x2) && self.x <= x1.max(x2)
+                    && self.y >= y1.min(y2) && self.y <= y1.max(y2) {
                     self.on_edge = true;
-                } else if (cross > 0. && dir > 0) || (cross < 0. && dir < 0) {
-                    self.count += dir;
+                    return;
+                }
+
+                // count the edges crossing the horizontal line through the point on its left.
+                // The range of y is half open so that a vertex shared by two edges is counted
+                // once and horizontal edges are never counted.
+                if y1 <= self.y && self.y < y2 {
+                    if cross < 0. {
+                        self.count -= 1;
+                    }
+                } else if y2 <= self.y && self.y < y1 {
+                    if cross > 0. {
+                        self.count += 1;
+                    }
                 }
             }
         }
